@@ -53,12 +53,23 @@ def default_inputs(run, rng, focus):
         sets += F_SETS * 2 + UNIQ_SETS
     else:
         sets += F_SETS + UNIQ_SETS + IGN_SETS[:2]
+    if focus == "C07":
+        n = 2 * n
     for i in range(n):
         ns = rng.random() < .35
-        L, R = gen.gen_pair(rng, 8, ns=ns, words=gen.WORDS[:8] if rng.random() < .5 else None)
+        kw = {}
+        if focus == "C07" and rng.random() < .6:
+            # attribute-heavy documents over few values: unique-attribute rules bite
+            kw = dict(attr_counts=(1, 2, 2, 3), values=('1', '2'), tags=['a', 'b'])
+            ns = False
+        L, R = gen.gen_pair(rng, 8, ns=ns, words=gen.WORDS[:8] if rng.random() < .5 else None, **kw)
         if ns and rng.random() < .5:
             L, R = ns_variant(rng, L), ns_variant(rng, R)
         opts = rng.choice(sets)
+        if kw:
+            opts = rng.choice(UNIQ_SETS[:2] + [{'uniqueattrs': ['j', 'i'], 'fast_match': True}, {'uniqueattrs': [('a', 'i'), 'k']}])
+        if rng.random() < .08:
+            opts = dict(opts, _embed=True)     # the trees are handed over as sub-elements of larger documents
         if focus == "C03" and rng.random() < .6:
             R = deepcopy(L)
         if focus == "C13" and rng.random() < .6:
@@ -72,7 +83,23 @@ def default_inputs(run, rng, focus):
                             e.set(a, rng.choice('123'))
                         elif r < .6 and a in e.attrib:
                             del e.attrib[a]
-        inputs.append((xml(L), xml(R), opts))
+        rx = xml(R)
+        if ns and rng.random() < .3:
+            # the right document spells the prefix of urn:p differently (same URI, other prefix)
+            rx = rx.replace('xmlns:p=', 'xmlns:pp=').replace('<p:', '<pp:').replace('</p:', '</pp:').replace(' p:', ' pp:')
+        inputs.append((xml(L), rx, opts))
+    # wide documents: one parent with many children, reversed / shuffled / rotated (long alignments)
+    if focus in ("C01", "C05", "C17"):
+        for n in ([45] if quick else [45, 80]):
+            for kind in ("reversed", "shuffled"):
+                ks = list(range(n))
+                ks2 = list(reversed(ks)) if kind == "reversed" else rng.sample(ks, n)
+                mk = lambda order: "<r>" + "".join('<c k="%d">t%d</c>' % (i, i) for i in order) + "</r>"
+                inputs.append((mk(ks), mk(ks2), {'uniqueattrs': ['k']}))
+    # labelled stream of inputs that fall under recorded (open) known findings
+    if focus in ("C01", "C04"):
+        for a, b in KNOWN_STREAM:
+            inputs.append((a, b, {}))
     # exhaustive small scope
     trees = gen.all_trees(3 if quick else 4)
     exh = 0
@@ -98,15 +125,32 @@ def default_inputs(run, rng, focus):
     return inputs, exh
 
 
+def nonroot_ns(root):
+    """a namespace URI in scope somewhere that the root does not declare"""
+    top = set(root.nsmap.values())
+    return any(set(e.nsmap.values()) - top for e in root.iter() if isinstance(e.tag, str))
+
+
 def finding_key(desc, prop, msg):
-    """Machine-checkable classification used to match known findings."""
+    """Machine-checkable classification of the failing INPUT, used to match known findings."""
     try:
         L, R = etree.fromstring(desc["left"]), etree.fromstring(desc["right"])
         if L.nsmap.get(None) != R.nsmap.get(None):
             return "default-namespace-differs"
+        if nonroot_ns(L) or nonroot_ns(R):
+            return "non-root-namespace-declaration"
     except Exception:  # noqa
         pass
     return None
+
+
+KNOWN_STREAM = [
+    ('<a><b/></a>', '<a xmlns="urn:x"><b/></a>'),
+    ('<a xmlns="urn:x"><b/></a>', '<a><b/></a>'),
+    ('<a xmlns="urn:x"><b/></a>', '<a xmlns="urn:y"><b/><c/></a>'),
+    ('<a><b/></a>', '<a><b/><p:c xmlns:p="urn:x"><p:d/></p:c></a>'),
+    ('<a><c/></a>', '<a><c><z:k xmlns:z="urn:z"/><z:k xmlns:z="urn:z"><z:m xmlns:z="urn:z"/></z:k></c></a>'),
+]
 
 
 def evaluate(built, focus):
@@ -146,9 +190,8 @@ def evaluate(built, focus):
                 found.append(("C03", "empty script for different documents"))
             if ign and same_ign and len(raw) > len(nsact):
                 found.append(("C13", "documents differ only in ignored attributes but the script is %r" % (raw,)))
-        # C07 on the matching
-        mt = [(drun.lenc.order[a] if a < len(drun.lenc.order) else None, drun.renc.order[b], None) for a, b in c["matches"]]
-        found += oracles.check_matches(drun.left, drun.R, drun.d, mt, opts)
+        # C07 on the matching (evaluated before the script was generated)
+        found += c["c07"]
         for prop, msg in found:
             if prop == focus:
                 viols.append({"what": msg, "replay": {"left": desc["left"], "right": desc["right"], "opts": desc["opts"],
